@@ -17,6 +17,8 @@ func (s *scn) applyExtra(st CStep) {
 		s.applyMutate(st)
 	case "occupycycle":
 		s.applyOccupyCycle(st)
+	case "zeroswitch":
+		s.applyZeroSwitch(st)
 	default:
 		applyGov(s, st)
 	}
